@@ -9,7 +9,7 @@
 (*                                                                         *)
 (* Every clause yields [c |-> id, ok |-> holds, nv |-> antecedent held]    *)
 (***************************************************************************)
-EXTENDS Prov, FS, IO, SpecProvN, ProvXmlW
+EXTENDS Prov, FS, IO, SpecProvN, ProvRdfW
 
 Cl(id, nv, ok) == [c |-> id, ok |-> (~nv) \/ ok, nv |-> nv]
 
@@ -993,6 +993,12 @@ M_XmlBack(msPost, step) ==
                             /\ \A i \in 1..Len(step.back.bundles) : \E j \in 1..Len(rd.bundles) :
                                   rd.bundles[j].id = step.back.bundles[i].id
                                   /\ NsSame(step.back.bundles[i].ns, rd.bundles[j].ns))
+(* the PROV-O text the library wrote holds the triples the transcription of its writer (ProvRdfW.tla) *)
+(* produces from the model state - graph by graph, blank nodes as stars                              *)
+M_Rdf(msPost, step) ==
+  Cl("M_Rdf", IsRT(step, "rdf") /\ step.stage \in {"read", "done"} /\ "graphs" \in DOMAIN step.ast
+              /\ RdfExpressible(msPost, step.op.h),
+     SameRdf([i \in 1..Len(step.ast.graphs) |-> AbsRGraph(step.ast.graphs[i])], EncRdf(msPost, step.op.h)))
 M_Eq(r, step) == Cl("M_Eq", step.op.op = "CompareAll" /\ step.exc = "none", r.res = step.res.eq)
 
 =============================================================================
